@@ -855,5 +855,127 @@ func main() {
 	for _, e := range order {
 		emitEncodeEnvelope(&out, e.recv, e.prefix)
 	}
+	emitBuiltinOptions(&out)
 	fmt.Print(out.String())
+}
+
+// ---- built-in configuration of NewTranscoder ----
+
+// strConst resolves an identifier or literal to a Go string constant
+func strConst(e ast.Expr) string {
+	switch x := e.(type) {
+	case *ast.BasicLit:
+		if x.Kind == token.STRING {
+			v, err := strconv.Unquote(x.Value)
+			if err != nil {
+				die("bad string literal %s", x.Value)
+			}
+			return v
+		}
+	case *ast.Ident:
+		for _, f := range files {
+			for _, d := range f.Decls {
+				gd, ok := d.(*ast.GenDecl)
+				if !ok || gd.Tok != token.CONST {
+					continue
+				}
+				for _, sp := range gd.Specs {
+					vs := sp.(*ast.ValueSpec)
+					for i, n := range vs.Names {
+						if n.Name == x.Name && i < len(vs.Values) {
+							return strConst(vs.Values[i])
+						}
+					}
+				}
+			}
+		}
+	}
+	die("builtin options: cannot resolve string constant %T", e)
+	return ""
+}
+
+func bytesLit(v string) string {
+	parts := make([]string, len(v))
+	for i := 0; i < len(v); i++ {
+		parts[i] = strconv.Itoa(int(v[i]))
+	}
+	return "[" + strings.Join(parts, "; ") + "]%N"
+}
+
+// emitBuiltinOptions reads, from the body of NewTranscoder, the composite literals that give the
+// built-in codecs and compressors of a transcoder and the built-in default service options.
+func emitBuiltinOptions(out *strings.Builder) {
+	fd := findFunc("", "NewTranscoder")
+	if fd == nil {
+		die("NewTranscoder not found")
+	}
+	lits := map[string]*ast.CompositeLit{}
+	ast.Inspect(fd.Body, func(n ast.Node) bool {
+		if cl, ok := n.(*ast.CompositeLit); ok {
+			if id, ok := cl.Type.(*ast.Ident); ok {
+				if _, dup := lits[id.Name]; !dup {
+					lits[id.Name] = cl
+				}
+			}
+		}
+		return true
+	})
+	field := func(cl *ast.CompositeLit, name string) ast.Expr {
+		for _, el := range cl.Elts {
+			kv, ok := el.(*ast.KeyValueExpr)
+			if ok {
+				if id, ok := kv.Key.(*ast.Ident); ok && id.Name == name {
+					return kv.Value
+				}
+			}
+		}
+		die("NewTranscoder: field %s not found in literal", name)
+		return nil
+	}
+	keys := func(e ast.Expr) []ast.Expr {
+		cl, ok := e.(*ast.CompositeLit)
+		if !ok {
+			die("NewTranscoder: expected a map literal")
+		}
+		var ks []ast.Expr
+		for _, el := range cl.Elts {
+			ks = append(ks, el.(*ast.KeyValueExpr).Key)
+		}
+		return ks
+	}
+	strKeys := func(e ast.Expr) string {
+		var parts []string
+		for _, k := range keys(e) {
+			parts = append(parts, bytesLit(strConst(k)))
+		}
+		return "[" + strings.Join(parts, "; ") + "]"
+	}
+	topts, sopts := lits["transcoderOptions"], lits["serviceOptions"]
+	if topts == nil || sopts == nil {
+		die("NewTranscoder: option literals not found")
+	}
+	fmt.Fprintf(out, "(* built-in configuration : %s *)\n", posOf(fd.Pos()))
+	fmt.Fprintf(out, "Definition builtin_codecs : list (list N) := %s.\n", strKeys(field(topts, "codecs")))
+	fmt.Fprintf(out, "Definition builtin_compressors : list (list N) := %s.\n", strKeys(field(topts, "compressors")))
+	fmt.Fprintf(out, "Definition default_codec_names : list (list N) := %s.\n", strKeys(field(sopts, "codecNames")))
+	fmt.Fprintf(out, "Definition default_compressor_names : list (list N) := %s.\n", strKeys(field(sopts, "compressorNames")))
+	fmt.Fprintf(out, "Definition default_preferred_codec : list N := %s.\n", bytesLit(strConst(field(sopts, "preferredCodec"))))
+	var protos []string
+	for _, k := range keys(field(sopts, "protocols")) {
+		id, ok := k.(*ast.Ident)
+		if !ok || protocolEnum[id.Name] == "" {
+			die("NewTranscoder: unexpected default protocol")
+		}
+		protos = append(protos, protocolEnum[id.Name])
+	}
+	fmt.Fprintf(out, "Definition default_protocols : list Z := [%s].\n", strings.Join(protos, "; "))
+	for _, f := range []string{"maxMsgBufferBytes", "maxGetURLBytes"} {
+		v, ok := constEval(field(sopts, f), &env{})
+		if !ok {
+			die("NewTranscoder: %s is not constant", f)
+		}
+		fmt.Fprintf(out, "Definition default_%s : Z := %s.\n", f, zlit(v))
+	}
+	// registerService: the limits are rejected when <= 0
+	out.WriteString("\n")
 }
